@@ -4,6 +4,7 @@ import (
 	"fmt"
 	"go/types"
 	"runtime/debug"
+	"sort"
 	"strings"
 
 	"golang.org/x/tools/go/ssa"
@@ -181,3 +182,35 @@ func contractMentions(ct *Contract, prop string) bool {
 }
 
 var _ = ssa.NaiveForm
+
+// ParamTable lists, for every function of the module that has a contract or a view, its parameter names as
+// they are in the source now (receiver first): "file:line<TAB>key<TAB>a, b, c".
+func (e *Engine) ParamTable() []string {
+	var out []string
+	add := func(ct *Contract) {
+		fn := e.Funcs[ct.Key]
+		if fn == nil {
+			fn = e.Funcs[qualifyKey(ct.Key, ct.Pkg)]
+		}
+		if fn == nil || len(fn.Params) == 0 || len(fn.FreeVars) > 0 || !inModule(fn) || len(ct.ParamNames) > 0 {
+			return
+		}
+		var names []string
+		for _, p := range fn.Params {
+			names = append(names, p.Name())
+		}
+		out = append(out, fmt.Sprintf("%s:%d\t%s\t%s", ct.File, ct.Line, ct.Key, strings.Join(names, ", ")))
+	}
+	for _, k := range e.Specs.SortedContractKeys() {
+		add(e.Specs.Contracts[k])
+	}
+	seen := map[*Contract]bool{}
+	for _, v := range e.Specs.Views {
+		if !seen[v] {
+			seen[v] = true
+			add(v)
+		}
+	}
+	sort.Strings(out)
+	return out
+}
